@@ -27,14 +27,111 @@ Qed.
 Lemma tl_incl {A} (l : list A) x : In x (tl l) -> In x l.
 Proof. destruct l; cbn; auto. Qed.
 
+(** ** the name lists depend only on names, lists, and the two comparisons surface > bottom, surface <= top *)
+Record nagree (g g' : geo) : Prop := {
+  n_clist : clist g' = clist g; n_klist : klist g' = klist g; n_llist : llist g' = llist g; n_ldict : ldict g' = ldict g;
+  n_bnl : bnl g' = bnl g; n_bcl : bcl g' = bcl g; n_conv : conv g' = conv g; n_atm : atm g' = atm g;
+  n_cn : forall c, In c (clist g) -> cn g' c = cn g c;
+  n_ln : forall l, In l (llist g) -> ln g' l = ln g l;
+  n_k : forall k, In k (klist g) -> k0 g' k = k0 g k /\ k1 g' k = k1 g k;
+  n_ab : forall lay c, In lay (llist g) -> In c (clist g) -> above_bottom g' lay c = above_bottom g lay c;
+  n_st : forall lay c, In lay (llist g) -> In c (clist g) -> surf_le_top g' lay c = surf_le_top g lay c }.
+
+Section NamesAgree.
+  Variables g g' : geo.
+  Hypothesis A : nagree g g'.
+
+  Lemma n_block_name a b : block_name g' a b = block_name g a b.
+  Proof. unfold block_name. rewrite (n_conv _ _ A). reflexivity. Qed.
+  Lemma n_atmcol : atmosphere_column_name g' = atmosphere_column_name g.
+  Proof. unfold atmosphere_column_name. rewrite (n_conv _ _ A). reflexivity. Qed.
+  Lemma n_layer_cols lay : In lay (llist g) -> layer_cols g' lay = layer_cols g lay.
+  Proof.
+    intro Hl. unfold layer_cols. rewrite (n_clist _ _ A). apply filterM_ext_in. intros c Hc. exact (n_ab _ _ A lay c Hl Hc).
+  Qed.
+  Lemma n_fresh_bnl : fresh_bnl g' = fresh_bnl g.
+  Proof.
+    unfold fresh_bnl. rewrite (n_ldict _ _ A), (n_atm _ _ A), (n_llist _ _ A), (n_clist _ _ A).
+    destruct (length (ldict g) =? 0)%nat; [reflexivity|].
+    assert (E1 : forall l0, In l0 (llist g) ->
+                 map (fun c => block_name g' (ln g' l0) (cn g' c)) (clist g) = map (fun c => block_name g (ln g l0) (cn g c)) (clist g)).
+    { intros l0 H0. apply map_ext_in. intros c Hc. rewrite n_block_name, (n_ln _ _ A l0 H0), (n_cn _ _ A c Hc). reflexivity. }
+    assert (E2 : mapM (fun lay => do cols <- layer_cols g' lay; Ok (map (fun c => block_name g' (ln g' lay) (cn g' c)) cols)) (tl (llist g)) =
+                 mapM (fun lay => do cols <- layer_cols g lay; Ok (map (fun c => block_name g (ln g lay) (cn g c)) cols)) (tl (llist g))).
+    { apply mapM_ext_in. intros lay Hl. apply tl_incl in Hl. rewrite (n_layer_cols lay Hl).
+      destruct (layer_cols g lay) as [cols|e] eqn:E; cbn [bind]; [|reflexivity]. f_equal. apply map_ext_in.
+      intros c Hc. rewrite n_block_name, (n_ln _ _ A lay Hl).
+      rewrite (n_cn _ _ A c); [reflexivity|]. eapply filterM_incl; [exact E|exact Hc]. }
+    rewrite E2. rewrite n_atmcol.
+    destruct (atm g) as [|[|n]].
+    - destruct (llist g) as [|l0 r] eqn:EL; [reflexivity|].
+      assert (H0 : In l0 (llist g)) by (rewrite EL; left; reflexivity).
+      rewrite n_block_name, (n_ln _ _ A l0 H0). reflexivity.
+    - destruct (clist g) as [|c0 cr] eqn:Ec; [reflexivity|]. destruct (llist g) as [|l0 r] eqn:EL; [reflexivity|].
+      rewrite (E1 l0 (or_introl eq_refl)). reflexivity.
+    - reflexivity.
+  Qed.
+  Lemma n_vertical first prev lay cols : In prev (llist g) -> In lay (llist g) -> (forall c, In c cols -> In c (clist g)) ->
+    vertical_names g' first prev lay cols = vertical_names g first prev lay cols.
+  Proof.
+    intros Hp Hl Hc. unfold vertical_names. f_equal.
+    - apply mapM_ext_in. intros c Hcc. pose proof (Hc c Hcc) as Hcl.
+      rewrite (n_st _ _ A lay c Hl Hcl), n_block_name, (n_ln _ _ A lay Hl), (n_cn _ _ A c Hcl).
+      destruct (surf_le_top g lay c) as [below|]; cbn [bind]; [|reflexivity].
+      rewrite (n_atm _ _ A), (n_bnl _ _ A), (n_llist _ _ A), n_block_name, (n_ln _ _ A prev Hp).
+      destruct (first || below); [|reflexivity].
+      destruct (atm g) as [|[|n]]; try reflexivity.
+      destruct (llist g) as [|l0 r] eqn:EL; [reflexivity|].
+      assert (H0 : In l0 (llist g)) by (rewrite EL; left; reflexivity).
+      rewrite n_block_name, (n_ln _ _ A l0 H0). reflexivity.
+  Qed.
+  Lemma n_horizontal lay cols : In lay (llist g) -> (forall c, In c cols -> In c (clist g)) ->
+    horizontal_names g' lay cols = horizontal_names g lay cols.
+  Proof.
+    intros Hl Hc. unfold horizontal_names. rewrite (n_klist _ _ A).
+    assert (F : filter (fun k => mem (k0 g' k) cols && mem (k1 g' k) cols) (klist g) =
+                filter (fun k => mem (k0 g k) cols && mem (k1 g k) cols) (klist g)).
+    { apply filter_ext_in. intros k Hk. destruct (n_k _ _ A k Hk) as [E0 E1]. rewrite E0, E1. reflexivity. }
+    rewrite F. apply map_ext_in. intros k Hk. apply filter_In in Hk. destruct Hk as [Hk Hm].
+    apply andb_prop in Hm. destruct Hm as [M0 M1]. apply mem_In in M0. apply mem_In in M1.
+    destruct (n_k _ _ A k Hk) as [E0 E1].
+    rewrite !n_block_name, (n_ln _ _ A lay Hl), E0, E1.
+    rewrite (n_cn _ _ A _ (Hc _ M0)), (n_cn _ _ A _ (Hc _ M1)). reflexivity.
+  Qed.
+  Lemma n_conn_names_from ls : forall first prev, In prev (llist g) -> (forall l, In l ls -> In l (llist g)) ->
+    conn_names_from g' first prev ls = conn_names_from g first prev ls.
+  Proof.
+    induction ls as [|lay r IH]; intros first prev Hp Hls; cbn [conn_names_from]; [reflexivity|].
+    assert (Hl : In lay (llist g)) by (apply Hls; left; reflexivity).
+    rewrite (n_layer_cols lay Hl). destruct (layer_cols g lay) as [cols|e] eqn:E; cbn [bind]; [|reflexivity].
+    assert (Hc : forall c, In c cols -> In c (clist g)) by (intros c H; eapply filterM_incl; eauto).
+    rewrite (n_vertical first prev lay cols Hp Hl Hc), (n_horizontal lay cols Hl Hc).
+    rewrite IH; [reflexivity|exact Hl|]. intros l H. apply Hls. right. exact H.
+  Qed.
+  Lemma n_fresh_bcl : fresh_bcl g' = fresh_bcl g.
+  Proof.
+    unfold fresh_bcl. rewrite (n_llist _ _ A). destruct (llist g) as [|l0 r] eqn:E; [reflexivity|].
+    apply n_conn_names_from; rewrite E; [left; reflexivity|]. intros l H. right. exact H.
+  Qed.
+  Lemma n_S6 : S6 g -> S6 g'.
+  Proof. intros [P1 P2]. split; [rewrite n_fresh_bnl, (n_bnl _ _ A)|rewrite n_fresh_bcl, (n_bcl _ _ A)]; assumption. Qed.
+End NamesAgree.
+
+Lemma agree_nagree g g' : agree g g' -> nagree g g'.
+Proof.
+  intro A. constructor.
+  - exact (a_clist _ _ A). - exact (a_klist _ _ A). - exact (a_llist _ _ A). - exact (a_ldict _ _ A).
+  - exact (a_bnl _ _ A). - exact (a_bcl _ _ A). - exact (a_conv _ _ A). - exact (a_atm _ _ A).
+  - intros c Hc. apply (a_c _ _ A c Hc).
+  - intros l Hl. apply (a_l _ _ A l Hl).
+  - intros k Hk. destruct (a_k _ _ A k Hk) as [E0 [E1 _]]. auto.
+  - intros lay c Hl Hc. unfold above_bottom. rewrite (agree_cs g g' A c Hc), (agree_lb g g' A lay Hl). reflexivity.
+  - intros lay c Hl Hc. unfold surf_le_top. rewrite (agree_cs g g' A c Hc), (agree_lt g g' A lay Hl). reflexivity.
+Qed.
+
 Section AgreeNames.
   Variables g g' : geo.
   Hypothesis A : agree g g'.
-
-  Lemma agree_block_name a b : block_name g' a b = block_name g a b.
-  Proof. unfold block_name. rewrite (a_conv _ _ A). reflexivity. Qed.
-  Lemma agree_atmcol : atmosphere_column_name g' = atmosphere_column_name g.
-  Proof. unfold atmosphere_column_name. rewrite (a_conv _ _ A). reflexivity. Qed.
 
   Lemma agree_count_layers s : count_layers g' s = count_layers g s.
   Proof.
@@ -47,79 +144,8 @@ Section AgreeNames.
     intros P c Hc. rewrite (a_clist _ _ A) in Hc.
     rewrite agree_count_layers, (agree_cs g g' A c Hc), (agree_cl g g' A c Hc). exact (P c Hc).
   Qed.
-
-  Lemma agree_layer_cols lay : In lay (llist g) -> layer_cols g' lay = layer_cols g lay.
-  Proof.
-    intro Hl. unfold layer_cols. rewrite (a_clist _ _ A). apply filterM_ext_in. intros c Hc.
-    unfold above_bottom. rewrite (agree_cs g g' A c Hc), (agree_lb g g' A lay Hl). reflexivity.
-  Qed.
-
-  Lemma agree_fresh_bnl : fresh_bnl g' = fresh_bnl g.
-  Proof.
-    unfold fresh_bnl. rewrite (a_ldict _ _ A), (a_atm _ _ A), (a_llist _ _ A), (a_clist _ _ A).
-    destruct (length (ldict g) =? 0)%nat; [reflexivity|].
-    assert (E1 : forall l0, In l0 (llist g) ->
-                 map (fun c => block_name g' (ln g' l0) (cn g' c)) (clist g) = map (fun c => block_name g (ln g l0) (cn g c)) (clist g)).
-    { intros l0 H0. apply map_ext_in. intros c Hc. rewrite agree_block_name, (agree_ln g g' A l0 H0), (agree_cn g g' A c Hc). reflexivity. }
-    assert (E2 : mapM (fun lay => do cols <- layer_cols g' lay; Ok (map (fun c => block_name g' (ln g' lay) (cn g' c)) cols)) (tl (llist g)) =
-                 mapM (fun lay => do cols <- layer_cols g lay; Ok (map (fun c => block_name g (ln g lay) (cn g c)) cols)) (tl (llist g))).
-    { apply mapM_ext_in. intros lay Hl. apply tl_incl in Hl. rewrite (agree_layer_cols lay Hl).
-      destruct (layer_cols g lay) as [cols|e] eqn:E; cbn [bind]; [|reflexivity]. f_equal. apply map_ext_in.
-      intros c Hc. rewrite agree_block_name, (agree_ln g g' A lay Hl).
-      rewrite (agree_cn g g' A c); [reflexivity|]. eapply filterM_incl; [exact E|exact Hc]. }
-    rewrite E2. rewrite agree_atmcol.
-    destruct (atm g) as [|[|n]].
-    - destruct (llist g) as [|l0 r] eqn:EL; [reflexivity|].
-      assert (H0 : In l0 (llist g)) by (rewrite EL; left; reflexivity).
-      rewrite agree_block_name, (agree_ln g g' A l0 H0). reflexivity.
-    - destruct (clist g) as [|c0 cr] eqn:Ec; [reflexivity|]. destruct (llist g) as [|l0 r] eqn:EL; [reflexivity|].
-      rewrite (E1 l0 (or_introl eq_refl)). reflexivity.
-    - reflexivity.
-  Qed.
-
-  Lemma agree_vertical first prev lay cols : In prev (llist g) -> In lay (llist g) -> (forall c, In c cols -> In c (clist g)) ->
-    vertical_names g' first prev lay cols = vertical_names g first prev lay cols.
-  Proof.
-    intros Hp Hl Hc. unfold vertical_names. f_equal.
-    - apply mapM_ext_in. intros c Hcc. pose proof (Hc c Hcc) as Hcl.
-      rewrite (agree_cs g g' A c Hcl), agree_block_name, (agree_ln g g' A lay Hl), (agree_cn g g' A c Hcl), (agree_lt g g' A lay Hl).
-      destruct (cs g c) as [s|]; [|reflexivity].
-      rewrite (a_atm _ _ A), (a_bnl _ _ A), (a_llist _ _ A), agree_block_name, (agree_ln g g' A prev Hp).
-      destruct (first || Qle_bool s (lt g lay)); [|reflexivity].
-      destruct (atm g) as [|[|n]]; try reflexivity.
-      destruct (llist g) as [|l0 r] eqn:EL; [reflexivity|].
-      assert (H0 : In l0 (llist g)) by (rewrite EL; left; reflexivity).
-      rewrite agree_block_name, (agree_ln g g' A l0 H0). reflexivity.
-  Qed.
-  Lemma agree_horizontal lay cols : In lay (llist g) -> (forall c, In c cols -> In c (clist g)) ->
-    horizontal_names g' lay cols = horizontal_names g lay cols.
-  Proof.
-    intros Hl Hc. unfold horizontal_names. rewrite (a_klist _ _ A).
-    assert (F : filter (fun k => mem (k0 g' k) cols && mem (k1 g' k) cols) (klist g) =
-                filter (fun k => mem (k0 g k) cols && mem (k1 g k) cols) (klist g)).
-    { apply filter_ext_in. intros k Hk. rewrite (agree_k0 g g' A k Hk), (agree_k1 g g' A k Hk). reflexivity. }
-    rewrite F. apply map_ext_in. intros k Hk. apply filter_In in Hk. destruct Hk as [Hk Hm].
-    apply andb_prop in Hm. destruct Hm as [M0 M1]. apply mem_In in M0. apply mem_In in M1.
-    rewrite !agree_block_name, (agree_ln g g' A lay Hl), (agree_k0 g g' A k Hk), (agree_k1 g g' A k Hk).
-    rewrite (agree_cn g g' A _ (Hc _ M0)), (agree_cn g g' A _ (Hc _ M1)). reflexivity.
-  Qed.
-  Lemma agree_conn_names_from ls : forall first prev, In prev (llist g) -> (forall l, In l ls -> In l (llist g)) ->
-    conn_names_from g' first prev ls = conn_names_from g first prev ls.
-  Proof.
-    induction ls as [|lay r IH]; intros first prev Hp Hls; cbn [conn_names_from]; [reflexivity|].
-    assert (Hl : In lay (llist g)) by (apply Hls; left; reflexivity).
-    rewrite (agree_layer_cols lay Hl). destruct (layer_cols g lay) as [cols|e] eqn:E; cbn [bind]; [|reflexivity].
-    assert (Hc : forall c, In c cols -> In c (clist g)) by (intros c H; eapply filterM_incl; eauto).
-    rewrite (agree_vertical first prev lay cols Hp Hl Hc), (agree_horizontal lay cols Hl Hc).
-    rewrite IH; [reflexivity|exact Hl|]. intros l H. apply Hls. right. exact H.
-  Qed.
-  Lemma agree_fresh_bcl : fresh_bcl g' = fresh_bcl g.
-  Proof.
-    unfold fresh_bcl. rewrite (a_llist _ _ A). destruct (llist g) as [|l0 r] eqn:E; [reflexivity|].
-    apply agree_conn_names_from; rewrite E; [left; reflexivity|]. intros l H. right. exact H.
-  Qed.
   Lemma agree_S6 : S6 g -> S6 g'.
-  Proof. intros [P1 P2]. split; [rewrite agree_fresh_bnl, (a_bnl _ _ A)|rewrite agree_fresh_bcl, (a_bcl _ _ A)]; assumption. Qed.
+  Proof. apply n_S6. apply agree_nagree. exact A. Qed.
 
   Lemma agree_InvS : InvS g -> InvS g'.
   Proof.
